@@ -240,6 +240,12 @@ func main() {
 	plugin.Serve(sc)
 
 	// Serve returned: the host asked us to shut down (or serving failed).
+	if vp.StormStarted.Load() {
+		// the accept worker carries on for a moment, is stopped, and its last calls get time to unwind
+		time.Sleep(200 * time.Millisecond)
+		vp.StormStop.Store(true)
+		time.Sleep(300 * time.Millisecond)
+	}
 	if cfg.NeverExit {
 		select {}
 	}
@@ -303,6 +309,8 @@ var (
 	seqMu sync.Mutex
 	seqs  = map[byte]uint32{}
 	wrote = map[byte]int64{}
+	// streamWriteMu: see doWrites
+	streamWriteMu [256]sync.Mutex
 )
 
 // doWrites issues the plan: the two streams from two goroutines, each stream's
@@ -324,12 +332,18 @@ func doWrites(p *WritePlan) map[string]any {
 				if f.GapUs > 0 {
 					time.Sleep(time.Duration(f.GapUs) * time.Microsecond)
 				}
+				// one writer per stream at a time: the sequence number is taken and the frame written under the
+				// stream's own lock, so that a plan that starts while an earlier one is still blocked in a
+				// large write cannot put a later-numbered frame in front of it
+				wmu := &streamWriteMu[tag]
+				wmu.Lock()
 				seqMu.Lock()
 				seq := seqs[tag]
 				seqs[tag]++
 				seqMu.Unlock()
 				b := spec.FrameBytes(p.Seed, tag, seq, f.Len)
 				n, _ := stream(s).Write(b)
+				wmu.Unlock()
 				seqMu.Lock()
 				wrote[tag] += int64(n)
 				seqMu.Unlock()
